@@ -274,34 +274,34 @@ dollar = Fn(S, 'do_command_substitution_for_dollar', props=('C11',),
     ensures=[
         ('C11+C13+C01.dollar.only_unquoted_words_with_a_substitution_change', frame(DCOND.replace('T', 'old(tokens)@[k]'))),
         ('C11.dollar.inner_command_run_once_per_planning', 'final(lg).ran - old(lg).ran <= final(lg).planned - old(lg).planned'),
-        ('C13.dollar.operator_characters_of_an_output_are_data', data_clause()),
+        ('C11+C13.dollar.operator_characters_of_an_output_are_data', data_clause()),
         ('C11.dollar.pass_id', 'final(lg).order == old(lg).order.push(1)'),
     ],
     loops={
         0: Loop(invariant=[
             ('C11.inv.dollar.idx', 'idx == __I && tokens@ == old(tokens)@ && lg.ran - old(lg).ran <= lg.planned - old(lg).planned && lg.order == old(lg).order.push(1)'),
             ('C11+C13.inv.dollar.buff', 'forall|kk: int| umap(buff).contains_key(kk) ==> 0 <= kk < __I && ' + DCOND.replace('T', 'tokens@[kk]')),
-            ('C13.inv.dollar.words', words_inv('tokens@', '__I', DCOND)),
-            ('C13.inv.dollar.ops', OPS),
+            ('C11+C13.inv.dollar.words', words_inv('tokens@', '__I', DCOND)),
+            ('C11+C13.inv.dollar.ops', OPS),
         ]),
         # the scan of one word terminates: what is left to scan gets shorter with every substitution
         1: Loop(invariant=[
             ('C11.inv.dollar.once', 'lg.ran - old(lg).ran <= lg.planned - old(lg).planned && lg.order == old(lg).order.push(1)'),
-            ('C13.inv.dollar.ops_inner', 'forall|k: int| lg.op_words.contains(k) ==> old(lg).op_words.contains(k) || in_words(data_words@, k) || (k == idx as int && got_operator && sep@.len() == 0 && !assign_prefix(tokens@, idx as int))'),
+            ('C11+C13.inv.dollar.ops_inner', 'forall|k: int| lg.op_words.contains(k) ==> old(lg).op_words.contains(k) || in_words(data_words@, k) || (k == idx as int && got_operator && sep@.len() == 0 && !assign_prefix(tokens@, idx as int))'),
         ], decreases='rest@.len()'),
         2: Loop(invariant=[
             ('C11+C13.inv.dollar.frame', 'tokens@.len() == old(tokens)@.len() && forall|k: int| 0 <= k < tokens@.len() ==> (#[trigger] tokens@[k]).0@ == old(tokens)@[k].0@ '
                                          '&& (!(' + DCOND.replace('T', 'old(tokens)@[k]') + ') ==> tokens@[k].1@ == old(tokens)@[k].1@)'),
             ('C11+C13.inv.dollar.entries', 'forall|i: int| 0 <= i < __entries@.len() ==> (#[trigger] __entries@[i]).0 < tokens@.len() && ' + DCOND.replace('T', 'old(tokens)@[__entries@[i].0 as int]')),
             ('C11.inv.dollar.once2', 'lg.ran - old(lg).ran <= lg.planned - old(lg).planned && lg.order == old(lg).order.push(1)'),
-            ('C13.inv.dollar.words2', words_inv('old(tokens)@', 'tokens@.len()', DCOND)),
-            ('C13.inv.dollar.ops2', OPS),
+            ('C11+C13.inv.dollar.words2', words_inv('old(tokens)@', 'tokens@.len()', DCOND)),
+            ('C11+C13.inv.dollar.ops2', OPS),
         ]),
         3: Loop(invariant=[
             ('C11+C13.inv.dollar.frame3', frame_inv(DCOND)),
-            ('C13.inv.dollar.tagged', 'forall|j: int| 0 <= j < __I ==> tokens@[(#[trigger] data_words@[j]) as int].0@ == "\\""@'),
-            ('C13.inv.dollar.words3', words_inv('old(tokens)@', 'tokens@.len()', DCOND)),
-            ('C13.inv.dollar.ops3', '(' + OPS + ') && lg.ran - old(lg).ran <= lg.planned - old(lg).planned && lg.order == old(lg).order.push(1)'),
+            ('C11+C13.inv.dollar.tagged', 'forall|j: int| 0 <= j < __I ==> tokens@[(#[trigger] data_words@[j]) as int].0@ == "\\""@'),
+            ('C11+C13.inv.dollar.words3', words_inv('old(tokens)@', 'tokens@.len()', DCOND)),
+            ('C11+C13.inv.dollar.ops3', '(' + OPS + ') && lg.ran - old(lg).ran <= lg.planned - old(lg).planned && lg.order == old(lg).order.push(1)'),
         ]),
     },
 )
